@@ -27,6 +27,8 @@ from twisted.internet.base import DelayedCall
 from twisted.python.failure import Failure
 from zope.interface import directlyProvides, implementer
 
+from .kernel import SimCancelled
+
 OPEN, CLOSING, LOST = 'open', 'closing', 'lost'
 
 
@@ -254,7 +256,7 @@ def deliver(sim, pipe, n):
             for fd in due:
                 sim.call(dst.node, proto.fileDescriptorReceived, fd)
         sim.call(dst.node, proto.dataReceived, data)
-    except Exception as e:
+    except (Exception, SimCancelled) as e:
         sim.exceptions.append((dst.name, 'dataReceived', e))
         sim.log('exc', dst.name, 'dataReceived', type(e).__name__)
         if dst.state != LOST:
